@@ -261,7 +261,9 @@ Judge(stb, ev) ==
       xdrops == IF a.op = "ce_probe" THEN ev.born \o [j \in 1..Len(ev.clones) |-> ev.clones[j][2]] ELSE x.drops
       dropOk == ~Cfg.drop \/ x.lat \in {"panic", "liar"} \/ BagEq(ev.drops, xdrops)
       dropLive == DropLive(stb, ev)
-      cloneOk == ~Cfg.ids \/ x.lat \in {"panic", "liar"} \/ a.op = "ce_probe" \/ BagEq([j \in 1..Len(ev.clones) |-> ev.clones[j][1]], x.clones)
+      cloneOk == x.lat \in {"panic", "liar"} \/ a.op = "ce_probe"
+                 \/ (IF Cfg.ids THEN BagEq([j \in 1..Len(ev.clones) |-> ev.clones[j][1]], x.clones)
+                     ELSE Len(ev.clones) = Len(x.clones))          \* zero-sized values: by count (A9)
       hintOk == x.hint = -1 \/ (ev.hint[1] = x.hint /\ ev.hint[2] = x.hint /\ ev.hint[3] = x.hint)
       typeOk == \A j \in 1..Len(ev.note) : ev.note[j] \notin BadNotes
       ceOk == a.op # "ce_probe" \/ ~Cfg.ids \/
